@@ -26,7 +26,7 @@ def run(ctx, replay):
     #    the same run prints every case with its expected result
     cases = os.path.join(ctx.scratch, "cases.ndjson")
     ctx.tlc("Merge", "MCMerge.cfg", consts={"Tier": ctx.tier, "Emit": True}, emit_to=cases,
-            timeout=3000 if thorough else 600, name="MCMerge")
+            timeout=5400 if thorough else 600, name="MCMerge")
     # 2. vacuity guard: the model with the code's ORIGINAL (defective) location key must fail
     broken = ctx.tlc("Merge", "MCMerge.cfg", consts={"Tier": "quick", "Emit": False, "Broken": "lockey"},
                      expect_ok=False, timeout=600, name="MCMerge-broken-lockey")
